@@ -53,6 +53,8 @@ var c10Groupings = map[string]*refmodel.Grouping{
 	"by(ab)":     {Labels: []string{"ab"}},
 	"without(a)": {Without: true, Labels: []string{"a"}},
 	"without(c)": {Without: true, Labels: []string{"c"}},
+	"by()":       {Labels: []string{}},
+	"without()":  {Without: true, Labels: []string{}},
 }
 
 var c10JSONGroupings = map[string]*refmodel.Grouping{
@@ -60,7 +62,7 @@ var c10JSONGroupings = map[string]*refmodel.Grouping{
 	"without(msg)": {Without: true, Labels: []string{"msg"}}, "without(msg,ok)": {Without: true, Labels: []string{"msg", "ok"}},
 }
 
-var c10GroupingNames = []string{"", "by(a)", "by(a,c)", "by(ab)", "without(a)", "without(c)"}
+var c10GroupingNames = []string{"", "by(a)", "by(a,c)", "by(ab)", "without(a)", "without(c)", "by()", "without()"}
 
 func c10Build(in c10Input) ([]mockq.Rec, refmodel.Expr) {
 	var data []mockq.Rec
